@@ -40,8 +40,8 @@ def takeDigits : Bytes → Bytes × Bytes
 
 def digitsVal (ds : Bytes) : Nat := ds.foldl (fun acc b => acc * 10 + (b.toNat - 48)) 0
 
-/-- `[+-]digits[.digits][(e|E)[+-]digits]` → nearest double -/
-def parseDecimal (s : Bytes) : Option Float :=
+/-- `[+-]digits[.digits][(e|E)[+-]digits]` → (negative?, digits as a number, decimal exponent) -/
+def decimalParts (s : Bytes) : Option (Bool × Nat × Int) :=
   let (neg, s) := match s with
     | 45 :: r => (true, r)
     | 43 :: r => (false, r)
@@ -65,11 +65,50 @@ def parseDecimal (s : Bytes) : Option Float :=
       else none
   match expo with
   | none => none
-  | some ex =>
-    let mant := digitsVal (ip ++ fp)
-    let e10 : Int := ex - fp.length
-    let v := if e10 < 0 then Float.ofScientific mant true e10.natAbs else Float.ofScientific mant false e10.toNat
-    some (if neg then -v else v)
+  | some ex => some (neg, digitsVal (ip ++ fp), ex - fp.length)
+
+/-- nearest double of `mant · 10^e10` -/
+def floatOfParts (mant : Nat) (e10 : Int) : Float :=
+  if e10 < 0 then Float.ofScientific mant true e10.natAbs else Float.ofScientific mant false e10.toNat
+
+/-- `strconv.ParseFloat(s, 64)` on plain decimal texts -/
+def parseDecimal (s : Bytes) : Option Float :=
+  (decimalParts s).map (fun (neg, mant, e10) => let v := floatOfParts mant e10; if neg then -v else v)
+
+/-- exact comparison of `mant · 10^e10` with the finite double `d ≥ 0` -/
+def cmpDecimal (mant : Nat) (e10 : Int) (d : Float) : Ordering :=
+  let bits : Nat := d.toBits.toNat
+  let ex : Nat := (bits / 2 ^ 52) % 2048
+  let frac : Nat := bits % 2 ^ 52
+  let a : Nat := if ex = 0 then frac else frac + 2 ^ 52
+  let e : Int := if ex = 0 then -1074 else (ex : Int) - 1075
+  compare (mant * 10 ^ e10.toNat * 2 ^ (-e).toNat) (a * 2 ^ e.toNat * 10 ^ (-e10).toNat)
+
+/-- `mant · 10^e10` rounded ONCE to the nearest float32 (ties to even), as `strconv.ParseFloat(s, 32)` does; `none` when the
+result overflows (`ParseFloat` reports "value out of range", the PLY readers return that error).  Narrowing the nearest
+double is the same except when that double lies exactly half-way between two adjacent float32 values (or between
+MaxFloat32 and 2¹²⁸) while the decimal itself does not: then the side the decimal lies on decides. -/
+def round32OfParts (mant : Nat) (e10 : Int) : Option Float :=
+  let d := floatOfParts mant e10
+  let c := d.toFloat32
+  if d.isNaN then none else
+  if c.toFloat.isInf then
+    let maxF : Float := (Float32.ofBits 0x7f7fffff).toFloat
+    let half : Float := (maxF - (Float32.ofBits 0x7f7ffffe).toFloat) / 2
+    if !d.isInf && d == maxF + half && cmpDecimal mant e10 d == .lt then some maxF else none
+  else
+  if c.toFloat == d then some c.toFloat else
+  let (f1, f2) : Float32 × Float32 :=
+    if c.toFloat < d then (c, Float32.ofBits (c.toBits + 1)) else (Float32.ofBits (c.toBits - 1), c)
+  if f2.toFloat.isInf || !(d - f1.toFloat == f2.toFloat - d) then some c.toFloat else
+  match cmpDecimal mant e10 d with
+  | .gt => some f2.toFloat
+  | .lt => some f1.toFloat
+  | .eq => some c.toFloat
+
+/-- `strconv.ParseFloat(s, 32)` on plain decimal texts, widened to a double -/
+def parseDecimal32 (s : Bytes) : Option Float :=
+  (decimalParts s).bind (fun (neg, mant, e10) => (round32OfParts mant e10).map (fun v => if neg then -v else v))
 
 def fmax (a b : Float) : Float := if a > b then a else b
 def fmin (a b : Float) : Float := if a < b then a else b
@@ -86,7 +125,7 @@ def codingF : Coding Float where
   mulInv255 x := x * (1.0 / 255)
   showF := showFloat
   showI x := showInt x.toInt64.toInt
-  parseF s := (parseDecimal s).map (fun x => x.toFloat32.toFloat)
+  parseF := parseDecimal32
   parseF64 := parseDecimal
 
 /-! ## token codec -/
